@@ -213,8 +213,12 @@ def classify_stderr(e):
         return 'errorDirective'
     return 'diag:' + (e.strip().splitlines()[-1][:60] if e.strip() else '')
 
+_PRLIMIT = shutil.which('prlimit')
+
 def run_chibicc(ctx, d):
-    rc, o, e = sh([ctx.cc, '-E', 't.c'], cwd=d, timeout=TIMEOUT)
+    # address-space cap: a runaway expansion must not take the machine down before the wall-clock limit fires
+    cmd = ([_PRLIMIT, '--as=3221225472'] if _PRLIMIT else []) + [ctx.cc, '-E', 't.c']
+    rc, o, e = sh(cmd, cwd=d, timeout=TIMEOUT)
     if rc == -9:
         return ('hang',)
     if rc != 0:
@@ -822,11 +826,10 @@ def process(ctx, corr, tagged, stop_after=3):
                 corr.violations.append({'what': 'known region: ' + v[1], 'input': c['text'], 'known_id': v[2],
                                         'expected': 'gcc -E -P / C11 6.10.3.2-3', 'got': str(c['C'])[:200]})
         elif v[0] == 'violation' and len([x for x in corr.violations if not x.get('known_id')]) < stop_after:
-            kind = v[1][:40]
             def bad(t):
                 _, _, vv = judge_text(ctx, t)
                 return isinstance(vv, tuple) and vv[0] == 'violation'
-            small = shrink(ctx, c['text'], bad)
+            small = shrink(ctx, c['text'], bad, budget=30 if c['C'][0] == 'hang' else 120)
             c2, _, v2 = judge_text(ctx, small)
             if not (isinstance(v2, tuple) and v2[0] == 'violation'):
                 small, c2, v2 = c['text'], c, v
@@ -925,7 +928,7 @@ def correspond(ctx, corr):
             corr.known_hits.append(fid)
         else:
             corr.extra.setdefault('known_finding_notes', []).append(f'the witness of {fid} now expands like gcc: the finding can be retired')
-    chunk = 2000
+    chunk = 250
     for i in range(0, len(tagged), chunk):
         cases = process(ctx, corr, tagged[i:i + chunk])
         for c in cases[:2]:
